@@ -33,8 +33,8 @@ def optKindOf (s : Shape) : List WOp → Option (OKind × Option Nat)
 def mandMatches (impl spec : MWire) : Bool :=
   match impl, spec with
   | .v n, .v n' => n == n'
-  | .lv none, .lv _ => true
-  | .lve none, .lve _ => true
+  | .lv none, .lv none => true
+  | .lve none, .lve none => true
   | .lv (some n), .lv (some n') => n == n'
   | .lve (some n), .lve (some n') => n == n'
   | _, _ => false
